@@ -211,6 +211,100 @@ def _diag_scaling(a, b, sa, sb, divide):
     return None
 
 
+def lift3(interp, v, st):
+    """a stack of matrices (rank 3) as [m for m in v]: (label, extent, element) — the element of an
+    existing stack comprehension is its body, otherwise v[k]; for a stack of fixed small height
+    the label is None and the element is the list of members"""
+    sh = shape_of(v)
+    if sh is None or len(sh) != 3 or not sh[0].known():
+        return None
+    t = v.term
+    if sh[0].is_const() and 0 < sh[0].c <= 8:
+        els = []
+        for k in range(int(sh[0].c)):
+            if isinstance(t, Term) and t.op == "list" and len(t.args) == int(sh[0].c):
+                el = interp.vtab.get(t.args[k]) or V("arr", t.args[k], shape=tuple(sh[1:]), orig=frozenset([FRESH]), labels=v.labels, loc=fresh_id())
+            else:
+                el = subscript(interp, v, vconst(k), st, None)
+            if shape_of(el) is None or len(shape_of(el)) != 2:
+                return None
+            els.append(el)
+        return None, sh[0], els
+    if isinstance(t, Term) and t.op == "comp" and len(t.args) == 3 and t.args[1] == T("range", dim_term(Dim(0)), dim_term(sh[0])):
+        el = interp.vtab.get(t.args[2])
+        if el is not None and shape_of(el) is not None and len(shape_of(el)) == 2:
+            return t.args[0], sh[0], el
+        return None
+    lid = "C%d" % (interp.cur().loop_depth + 1)
+    if any(isinstance(x, Term) and x.op == "lv" and x.args[0] == lid for x in t.walk()):
+        return None
+    i = V("int", T("lv", lid), shape=(), labels=v.labels, extra=("index", Dim(0), sh[0]))
+    el = subscript(interp, v, i, st, None)
+    if shape_of(el) is None or len(shape_of(el)) != 2:
+        return None
+    return lid, sh[0], el
+
+
+def mk_lifted(interp, lid, n, el):
+    """[el(k) for k in range(n)] as an array value (el: the element, or the list of members)"""
+    if lid is None:
+        for e_ in el:
+            interp.vtab.setdefault(e_.term, e_)
+        t = T("list", *[e_.term for e_ in el])
+        lab = frozenset().union(*[e_.labels for e_ in el])
+        return V("arr", t, shape=(n,) + tuple(shape_of(el[0])), orig=frozenset([FRESH]), labels=lab, loc=fresh_id(), extra=el[0].extra if isinstance(el[0].extra, str) else None)
+    interp.vtab.setdefault(el.term, el)
+    t = T("comp", lid, T("range", dim_term(Dim(0)), dim_term(n)), el.term)
+    r = V("arr", t, shape=(n,) + tuple(shape_of(el)), orig=frozenset([FRESH]), labels=el.labels, loc=fresh_id(), extra=el.extra if isinstance(el.extra, str) else None)
+    interp.vtab.setdefault(t, r)
+    return r
+
+
+def lift3_map(interp, operands, f, st, want_rank=2):
+    """apply f to the members of the stacks among the operands (rank 3, same height; operands of
+    rank <= 2 are shared by all members) and stack the results; None when not applicable"""
+    lifted = [lift3(interp, v, st) if (shape_of(v) is not None and len(shape_of(v)) == 3) else False for v in operands]
+    if any(l is None for l in lifted) or not any(lifted):
+        return None
+    hs = [l for l in lifted if l]
+    n = hs[0][1]
+    if any(l[1] != n for l in hs):
+        return None
+    if hs[0][0] is None:
+        outs = []
+        for k in range(int(n.c)):
+            r = f([l[2][k] if l else v for l, v in zip(lifted, operands)])
+            if r is None or r.kind != "arr" or r.shape is None or len(r.shape) != want_rank:
+                return None
+            outs.append(r)
+        return mk_lifted(interp, None, n, outs)
+    lid = hs[0][0]
+    els = []
+    for l, v in zip(lifted, operands):
+        if not l:
+            els.append(v)
+        elif l[0] == lid:
+            els.append(l[2])
+        else:
+            from .interp import subst_term
+
+            els.append(l[2].replace(term=subst_term(l[2].term, {T("lv", l[0]): T("lv", lid)})))
+    r = f(els)
+    if r is None or r.kind != "arr" or r.shape is None or len(r.shape) != want_rank:
+        return None
+    return mk_lifted(interp, lid, n, r)
+
+
+def _lift3_binop(interp, op, name, a, b, sa, sb, shape, st, node):
+    """batched operations on a stack of matrices are the operation on every matrix of the stack:
+    S @ B = [s @ B for s in S],  A * S = [A * s for s in S], ..."""
+    if (len(sa) == 3 and len(sb) not in (2, 3)) or (len(sb) == 3 and len(sa) not in (2, 3)):
+        return None
+    if name != "matmul" and not any(len(s) == 3 and isinstance(v.term, Term) and v.term.op in ("comp", "list") for v, s in ((a, sa), (b, sb))):
+        return None  # elementwise: only with an operand that already is a stack of matrices
+    return lift3_map(interp, [a, b], lambda els: binop(interp, op, els[0], els[1], st, node), st)
+
+
 def binop(interp, op, a, b, st, node):
     name = OPNAMES.get(type(op), "binop") if not isinstance(op, str) else op
     if a.kind == "maybe":
@@ -286,6 +380,10 @@ def binop(interp, op, a, b, st, node):
         shape = matmul_shape(interp, sa, sb, st, node)
     else:
         shape = broadcast(interp, sa, sb, st, node, what=name)
+    if name in ("matmul", "add", "sub", "mul", "div") and sa is not None and sb is not None and hasattr(interp, "vtab") and shape is not None and len(shape) == 3:
+        r = _lift3_binop(interp, op, name, a, b, sa, sb, shape, st, node)
+        if r is not None:
+            return r
     term = T(name, a.term, b.term)
     if name == "matmul" and a.term.op == "stack" and len(a.term.args) == 3 and a.term.args[0] == const(1) and a.term.args[2].op == "zeros" and sb is not None and len(sb) == 2 and sa is not None and len(sa) == 2:
         # [A, 0] @ C = A @ C[:k]   (block product with a zero block)
